@@ -13,13 +13,22 @@ class C02Sketch(Scenario):
 
     def gen_config(self, rng):
         cfg = structs.SketchSubject.gen_cfg(rng)
-        cfg.update({"subject": rng.choice(SUBJECTS), "steps": rng.between(4, self.max_steps)})
+        cfg.update({"subject": rng.choice(SUBJECTS), "steps": rng.between(4, self.max_steps), "big": rng.chance(1, 3)})
         return cfg
 
     def gen_step(self, rng):
         if self.n_gen >= self.cfg["steps"]:
             return None
         self.n_gen += 1
+        if self.cfg.get("big") and rng.chance(1, 4):
+            # large amounts, still inside the statement's domain (totals below 2^31-1)
+            return {"op": "add", "k": rng.below(self.cfg["universe"]),
+                    "n": rng.choice((2**28, 2**29, 2**30, 700_000_000, 800_000_000, 2**30 - 1, 5_000_000))}
+        if self.cfg.get("big") and rng.chance(1, 6):
+            live = sorted(k for k, v in self.sub.model.items() if v > 1000)
+            if live:
+                k = rng.choice(live)
+                return {"op": "remove", "k": k, "n": rng.choice((self.sub.model[k], self.sub.model[k] // 2, 1))}
         return self.sub.gen_op(rng)
 
     def setup(self, cfg):
